@@ -482,3 +482,42 @@ def statements(rng, n_query, depth):
             t, l = g.query(d, top=True, locks=False if c < 8 else None)
         out.append((t, {"k": "query", "q": l}))
     return out
+
+
+# ---- statements on a sharded table (automatic_sharding_key = "data.id" or "*.id") ---------------
+def sharded_statements(keys=range(1, 13)):
+    """(text, label, kind) over table `data` with a literal on the sharding key column `id`;
+    kind: read | lock | write.  The keys are chosen by the caller so that they land on
+    different shards (the check learns each statement's shard from the real infer_shard)."""
+    S = lambda: Q(dict(SEL))
+    out = []
+    for k in keys:
+        out += [
+            ("SELECT * FROM data WHERE id = %d" % k, {"k": "query", "q": S()}, "read"),
+            ("SELECT v FROM data WHERE data.id = %d AND v > 1 ORDER BY v LIMIT 3" % k, {"k": "query", "q": S()}, "read"),
+            ("SELECT * FROM data d JOIN u ON u.id = d.v WHERE d.id = %d" % k, {"k": "query", "q": S()}, "read"),
+            ("SELECT * FROM data WHERE id = %d FOR UPDATE" % k, {"k": "query", "q": Q(dict(SEL), locks=True)}, "lock"),
+            ("WITH w AS (UPDATE data SET v = 0 WHERE id = %d RETURNING *) SELECT * FROM w" % k,
+             {"k": "query", "q": Q(dict(SEL), ctes=[Q({"b": "update"})])}, "write"),
+            ("UPDATE data SET v = v + 1 WHERE id = %d" % k, {"k": "other"}, "write"),
+            ("DELETE FROM data WHERE id = %d" % k, {"k": "other"}, "write"),
+            ("DELETE FROM data USING u WHERE data.id = %d AND u.id = data.v" % k, {"k": "other"}, "write"),
+            ("INSERT INTO data (id, v) VALUES (%d, 1)" % k, {"k": "other"}, "write"),
+            ("INSERT INTO data (v, id) VALUES (7, %d) RETURNING id" % k, {"k": "other"}, "write"),
+        ]
+    # no key / key column assigned (an error of assignment_parser when the key is "*.id") / two keys in one statement
+    out += [
+        ("SELECT count(*) FROM data", {"k": "query", "q": S()}, "read"),
+        ("SELECT * FROM t WHERE a = 3", {"k": "query", "q": S()}, "read"),
+        ("UPDATE data SET id = 99 WHERE id = 3", {"k": "other"}, "write"),
+        ("UPDATE t SET id = 5 WHERE a = 1", {"k": "other"}, "write"),
+        ("UPDATE data SET v = 2", {"k": "other"}, "write"),
+        ("DELETE FROM data", {"k": "other"}, "write"),
+        ("SELECT * FROM data WHERE id = 1 OR id = 2", {"k": "query", "q": S()}, "read"),
+        ("SELECT * FROM data WHERE id IN (1, 2, 3)", {"k": "query", "q": S()}, "read"),
+        ("DELETE FROM data WHERE id IN (4, 5)", {"k": "other"}, "write"),
+        ("BEGIN", {"k": "start"}, "start"),
+        ("COMMIT", {"k": "other"}, "write"),
+        ("TRUNCATE data", {"k": "other"}, "write"),
+    ]
+    return out
